@@ -30,23 +30,24 @@ RECURSIVE RunToEvent(_, _)
 \* run until the machine has printed something or stopped
 RunToEvent(prog, mm) == IF mm.status # "run" \/ Len(mm.out) > 0 THEN mm ELSE RunToEvent(prog, MStep(prog, mm))
 
+\* (a value bound by \E over a singleton set is computed once; a LET at the level of the action would be
+\*  re-evaluated at every reference)
 TProg == /\ Ev("prog") /\ phase = "idle"
-         /\ LET m0 == MInit(Rec[l].p, Fuel) IN
+         /\ \E m0 \in {MInit(Rec[l].p, Fuel)} :
             /\ m' = m0
             \* undefined behaviour in a constant initialiser: trivial from the start
-            /\ (m0.status # "run" => PrintT(<<"TRIVIAL", ToJson([line |-> l, why |-> m0.status])>>))
+            /\ (m0.status # "run" => PrintT(<<"TRIVIAL", ToJson([line |-> l, why |-> m0.status, detail |-> m0.why])>>))
          /\ pi' = l /\ phase' = "run" /\ l' = l + 1
 
 TEvent ==
     /\ phase = "run" /\ l <= Len(Rec) /\ Rec[l].ev \in {"print", "exit", "hang", "crash"}
-    /\ LET prog == Rec[pi].p
-           m2 == IF m.status # "run" THEN m
-                 ELSE IF Rec[l].ev = "crash" THEN RunFrom(prog, m)
-                 ELSE RunToEvent(prog, m)
-           last == Rec[l].ev \in {"exit", "hang", "crash"}
+    /\ \E m2 \in {IF m.status # "run" THEN m
+                   ELSE IF Rec[l].ev = "crash" THEN RunFrom(Rec[pi].p, m)
+                   ELSE RunToEvent(Rec[pi].p, m)} :
+       LET last == Rec[l].ev \in {"exit", "hang", "crash"}
        IN CASE m2.status \in {"ub", "fuel"} ->
                  \* trivial program: nothing is required of it
-                 /\ (m.status = "run" => PrintT(<<"TRIVIAL", ToJson([line |-> pi, why |-> m2.status])>>))
+                 /\ (m.status = "run" => PrintT(<<"TRIVIAL", ToJson([line |-> pi, why |-> m2.status, detail |-> m2.why])>>))
                  /\ m' = IF last THEN Idle ELSE [status |-> m2.status]
                  /\ phase' = (IF last THEN "idle" ELSE "run")
             [] m2.status \in {"illegal", "stuck"} \/ (m2.status \in {"run", "done"} /\ m2.bad # <<>>) ->
